@@ -1,6 +1,7 @@
 """C09 - container series keep their length and dtype under every assignment history."""
 from contracts.c09_containers import CONTRACTS as CONTAINER_CONTRACTS
 from props.containers_bounded import Histories
+from verif.crosscheck import TARGETS as _XT, EncoderCrossCheck
 from verif.spec import PropertySpec
 
 PROPERTY = PropertySpec(
@@ -15,3 +16,5 @@ PROPERTY = PropertySpec(
     technique='contract-based deductive verification of the representation invariant (pyvc + z3); bounded histories as conformance and stand-in',
     design_ref='DESIGN.md section 10 / C09',
 )
+
+PROPERTY.bounded.append(EncoderCrossCheck(_XT['C09']))
